@@ -20,11 +20,11 @@ Theorem ktuplets_model l1 maxKB idx start stop :
   16 <= maxKB -> maxKB <= 8192 -> (1 <= idx <= 5)%nat -> 7 <= start -> start <= stop -> stop <= MAX64 ->
   let low := start - byteRemainder start in
   let size := N.to_nat ((stop - low) / 30 + 1) in
-  segment_tuplets (nth idx kBitmasks []) low (bytes_of_set (erat_model l1 maxKB start stop) low size)
+  segment_tuplets (nth idx kBitmasks []) low (bytes_of_set (erat_self l1 maxKB start stop) low size)
   = tuplets_of_set idx (primes_between start stop).
 Proof.
   intros K1 K2 Hi S1 S2 S3 low size.
-  rewrite (erat_model_spec l1 maxKB K1 K2 start stop S1 S2 S3).
+  rewrite (erat_self_spec l1 maxKB K1 K2 start stop S1 S2 S3).
   assert (Hl : low mod 30 = 0) by (unfold low, byteRemainder; lia).
   assert (Hl7 : low + 7 <= start) by (unfold low, byteRemainder; lia).
   apply ktuplets_of_bytes; [exact Hi|exact Hl|apply primes_between_sorted|].
